@@ -17,7 +17,9 @@ from .c01 import lex_spans
 PROP = "C11"
 
 VARS = ('a = 1; s = "str"; d = 2.5; b = raw("b"); t = tab(3, 1); r = tup(1, "x"); $k = 5; n = null; tt = tab(2, tab(2, 0)); ty:integer; e = 0; i = 0; '
-        'tq = tab(2, tup(1, "x")); rq = tup(3, "r"); $tk = tab(2, 1); $rk = tup(1, "a"); $sk = "s";')
+        'tq = tab(2, tup(1, "x")); rq = tup(3, "r"); $tk = tab(2, 1); $rk = tup(1, "a"); $sk = "s"; '
+        # variables that already have the type a loop will give them as control variable
+        'et = tup(7, "z"); ei = 5; eb = tab(1, 4);')
 FUNS = ('function f1(x) return integer is begin return x + 1; end;\n'
         'function f2(x, y) return integer is begin return x * y; end;\n'
         'function f2(x) return integer is begin return -x; end;\n'
@@ -53,6 +55,10 @@ QS = [
     "for i in 1 to 2 loop forall e in t loop begin a = a + e * i; exception when others then a = 0; end; end loop; end loop;",
     "function f2(x) return integer is begin begin return fr(x); exception when others then return 0; end; end;",
     "n = tab(2, tup(1, 2)); forall e in n loop e.set@1(3); end loop;",
+    # control variables that exist beforehand with the very type the loop gives them, re-typed or not in the body
+    'forall et in tq loop et = tup(2.5, true); end loop;',
+    'forall et in tq loop a = a + et@1; end loop; forall ei in t loop a = a + ei; end loop; for ei in 1 to 2 loop a = a + ei; end loop;',
+    'forall eb in tt loop eb = tab(1, "s"); end loop;',
     # structured variables re-typed with another rank / another structure
     'tq = tup(1, "x", 2.5); rq = tab(2, tup(5, "w"));',
     'tq = tab(1, tab(1, tup(1, "x"))); rq = tup("s", 1);',
@@ -77,6 +83,8 @@ PROBES = ('print a s d $k isnull(n) typeof(ty) r@1 r@2 t.count() tt.count() b.co
           'forall pe in t loop put pe " "; end loop; print "";\n'
           't.concat(42); tt.at(0).put(0, 7); r.set@1(11); s.concat("?"); b.concat(1); print t.at(t.count() - 1) tt.at(0).at(0) r@1 s b.count();\n'
           'a = "retyped"; d = "retyped"; n = 5; e = "s"; i = "s"; print a d n e i;\n'
+          'forall et in tq loop put et@1; end loop; forall ei in t loop put ei; end loop; for ei in 1 to 2 loop put ei; end loop; forall eb in tt loop put eb.count(); end loop; print "";\n'
+          'et = "text"; ei = "s"; eb = 3; print et ei eb;\n'
           '$k = 77; print $k;\n'
           '$tk.concat(5); $rk.set@2("c"); print $tk.count() $tk.at(0) $rk@1 $rk@2 $sk; tq.at(0).set@2("y"); rq.set@2("s"); tq.concat(tup(9, "z")); print tq.at(0)@2 tq.count() tq.at(2)@1 rq@2 rq@1;\n')
 FPROBES = ('print f1(1) f2(2, 3) f2(4) fr(4) f3();\n'
